@@ -109,7 +109,7 @@ Init == /\ done = {} /\ pc = "run"
 (* the record of BinDesign.tla for the current state: what the harness records of a real run that got this far *)
 Rec == [op |-> "pipeline", names |-> par.names, genome |-> fs.genome, excl |-> fs.excl, gap |-> par.gap, skip |-> par.skip,
         baits |-> fs.baits, split |-> par.split, an |-> par.an, ad |-> 1, avg |-> par.avg, min |-> par.min,
-        pad |-> Pad, telo |-> Telo, hapx |-> par.hapx, ref_fa |-> FALSE, hasgc |-> FALSE,
+        pad |-> Pad, telo |-> Telo, hapx |-> par.hapx, ref_fa |-> FALSE, hasgc |-> FALSE, chain |-> "files",
         ran_access |-> "access" \in done, ran_target |-> "target" \in done, ran_anti |-> "antitarget" \in done,
         ran_ref |-> "reference" \in done,
         access |-> fs.access, access_err |-> "", targets |-> fs.targets, targets_err |-> "",
